@@ -65,10 +65,12 @@ func checksum(b []byte) int64 {
 	return acc
 }
 
-var methodNames = []string{"GET", "POST", "HEAD", "PUT"}
+// ids 4 and 5: methods as some clients spell them (a method is a case-sensitive token: "get" is not GET, net/http hands
+// it on as it came, and so must the buffer on every attempt)
+var methodNames = []string{"GET", "POST", "HEAD", "PUT", "get", "Post"}
 
 // literals a retry expression may compare the method with: the four methods, and spellings that differ from them only by
-// case (ids 4-7: never a request's method, so `==` with them is false and `!=` true)
+// case (ids 6-7 are never a request's method, so `==` with them is false and `!=` true; ids 4-5 sometimes are)
 var methodLits = []string{"GET", "POST", "HEAD", "PUT", "get", "Post", "head", "pUT"}
 
 func methodID(m string) int64 {
@@ -263,7 +265,7 @@ func decExchange(op []int64) (exch, bool) {
 			return x, false
 		}
 	}
-	if x.method < 0 || x.method > 2 || x.bodyLen < 0 || x.bodyLen > 1<<22 || x.url < 0 || (x.chunked != 0 && x.chunked != 1) {
+	if x.method < 0 || x.method > 5 || x.method == 3 || x.bodyLen < 0 || x.bodyLen > 1<<22 || x.url < 0 || (x.chunked != 0 && x.chunked != 1) {
 		return x, false
 	}
 	// an http client cannot send an empty chunked body with GET/HEAD (it probes the body and sends none)
@@ -1174,6 +1176,11 @@ func (c *bufComp) Gen(rng *rand.Rand, idx int, tier string, targeted bool) hlib.
 		method := hlib.Pick(rng, 0, 1, 1, 1, 2)
 		if methodShape && shapeLit%4 <= 2 && rng.Intn(5) != 0 {
 			method = shapeLit % 4 // mostly the method the expression's literal spells (exactly, or in another case)
+			if (shapeLit == 4 || shapeLit == 5) && rng.Intn(2) == 0 {
+				method = shapeLit // ... or the request is spelt that way itself
+			}
+		} else if rng.Intn(8) == 0 {
+			method = 4 + int64(rng.Intn(2))
 		}
 		bodyLen := genSize(rng, memReq, maxReq)
 		chunked := int64(rng.Intn(2))
